@@ -160,13 +160,13 @@ def _value_sf(value):
     return value
 
 
-def leak(classes, p, g):
+def leak(classes, p, g, dtype='uint8'):
     k = len(classes)
     c = np.asarray(classes)
-    return c[(p.astype('int64') + int(g)) % k].astype('uint8')
+    return c[(p.astype('int64') + int(g)) % k].astype(dtype)
 
 
-def _make_leak_sf(classes):
+def _make_leak_sf(classes, dtype='uint8'):
     def leak_sf(plaintext, guesses):
-        return np.stack([leak(classes, plaintext[:, 0], g) for g in guesses], 1)[:, :, None]
+        return np.stack([leak(classes, plaintext[:, 0], g, dtype) for g in guesses], 1)[:, :, None]
     return leak_sf
